@@ -444,6 +444,29 @@ func runC08(ctx *core.Ctx) {
 			}
 			ok := t1 != nil && same(c.Call.Args[1], t1) && same(c.Call.Args[3], t2)
 			ctx.Check(ok, "F5", "testscript.doCmdCmp#diff-operands", c.Pos(), "the diff printed on failure is computed from the very two texts whose equality was tested (for cmpenv: the expanded text)")
+			// ... and printed as data: it reaches the logger only as an operand of a constant format
+			// (used as the format, every '%' in a changed line is rewritten and lines are glued together)
+			asData := true
+			n := 0
+			for _, lc := range graph(p, cmp).Instrs2Calls(func(lc *ssa.Call) bool {
+				n := ssax.CalleeName(&lc.Call)
+				return strings.HasSuffix(n, "TestScript).Logf") || strings.HasSuffix(n, "TestScript).Fatalf") || n == "fmt.Fprintf" || n == "fmt.Sprintf" || n == "fmt.Printf"
+			}) {
+				fi := 1
+				if nm := ssax.CalleeName(&lc.Call); nm == "fmt.Sprintf" || nm == "fmt.Printf" {
+					fi = 0
+				}
+				if fi >= len(lc.Call.Args) {
+					continue
+				}
+				n++
+				if _, isConst := ssax.ConstString(lc.Call.Args[fi]); !isConst {
+					if ssax.DerivedFrom(lc.Call.Args[fi], isVal(c), func(*ssa.Call) bool { return false }) {
+						asData = false
+					}
+				}
+			}
+			ctx.Check(asData, "F5", "testscript.doCmdCmp#diff-as-data", c.Pos(), "the diff text is never the format string of a formatting call (%d formatting calls examined)", n)
 		}
 	}
 }
